@@ -6,6 +6,12 @@
   3. search      ThreadSanitizer build of harness/locks_harness.c against the current tree: N readers + 1 writer;
                  failing input = TSan race report / abort / an observation that is not the answer of any table
                  version inside its window (linearizability) or goes back in time (monotonicity; C06 two-state)
+  4. C06 size classes   reloads whose old and new router-key tables lie in different size classes of the hash table
+                 (thresholds from TOMMY_HASHLIN_BIT and vlib.source_literals() of the tree under test), growing and
+                 shrinking, one and several steps apart, also after the live table was shrunk by removals; readers
+                 on the common keys during and after the swap, a sequential enumeration + look-up of every key after
+                 each reload (`kcheck`), run under ThreadSanitizer and under AddressSanitizer; a coverage gate on the
+                 MEASURED geometry of the live table fails the check when a required class was never exercised
 """
 import os
 import re
@@ -157,6 +163,8 @@ class World:
         elif kind == "ksrcrm":
             k = {r for r in k if r[3] != op[1]}
             self.push(p, k, kind)
+        elif kind == "kcheck":
+            self.push(p, k, kind)      # sequential enumeration by the writing thread: no change
         elif kind == "reload":
             src, precs, krecs = op[1], op[2], op[3]
             np_ = [r[:5] + (src,) for r in precs]
@@ -245,6 +253,8 @@ class Script:
             self.lines.append(["%s %s" % (kind, rec_line(op[1]))])
         elif kind in ("srcrm", "ksrcrm"):
             self.lines.append(["%s %d" % (kind, op[1])])
+        elif kind == "kcheck":
+            self.lines.append(["kcheck"])
         elif kind in ("kadd", "krm"):
             self.lines.append(["%s %d %d %d %d" % ((kind,) + op[1])])
         elif kind == "reload":
@@ -365,6 +375,133 @@ def gen_script(r, name, nops, readers, reload_heavy=False):
     return s
 
 
+# ------------------------------------------------------------------------------------------
+# C06: reloads across the size classes of the router-key hash table
+# ------------------------------------------------------------------------------------------
+
+SIZE_CLASSES = ["same", "grow+1", "grow+2..", "shrink-1", "shrink-2..", "grow-after-removal-shrink"]
+
+
+def hashlin_bit():
+    """initial size exponent of the linear hash table of the tree under test (TOMMY_HASHLIN_BIT); 6 when the define is gone"""
+    try:
+        src = open(os.path.join(vlib.REPO, "third-party", "tommyds", "tommyhashlin.h"), errors="replace").read()
+        m = re.search(r"^\s*#\s*define\s+TOMMY_HASHLIN_BIT\s+\(?\s*(\d+)", src, re.M)
+        if m and 2 <= int(m.group(1)) <= 12:
+            return int(m.group(1))
+    except OSError:
+        pass
+    return 6
+
+
+def size_plan(r, tier):
+    """total key counts of the live router-key table to walk through, as a list of walks; each walk is a list of
+    ("reload", total) / ("srcrm",) steps.  The table doubles when the count exceeds half the bucket count
+    (tommy_hashlin: count > bucket_max / 2, bucket_max = 2^TOMMY_HASHLIN_BIT at first), so the growth boundaries are
+    g[j] = 2^(BIT-1+j); it halves step by step when removals bring the count under an eighth."""
+    bit = hashlin_bit()
+    nb = 4 if tier == "quick" else 7
+    g = [1 << (bit - 1 + j) for j in range(nb)]
+    cap = 2 * g[-1] + 1
+    lits = sorted({v + d for v in vlib.source_literals()["ints"] if g[0] // 2 <= v <= cap for d in (-1, 0, 1)} -
+                  {x + d for x in g for d in (-1, 0, 1)})
+    lits = [v for v in lits if g[0] // 2 <= v <= cap]
+    small = max(g[0] - 12, g[0] // 2)
+    # walk 1: across every boundary, neighbouring sizes, up and down: 2^k-1 -> 2^k+1 -> 2^k
+    w1 = []
+    for x in g[:4]:
+        w1 += [("reload", x - 1), ("reload", x + 1), ("reload", x)]
+    # walk 2: several steps apart in both directions; then the live table is shrunk by removals (its directory keeps
+    # the stale upper segments) before reloads that grow it again
+    top = g[min(3, len(g) - 1)] + 1
+    w2 = [("reload", small), ("reload", top), ("reload", g[0] + 1), ("reload", g[2] + 1), ("reload", g[0] - 1),
+          ("reload", g[1] + 1), ("reload", g[1] + 2),
+          ("reload", top), ("srcrm",), ("reload", top), ("srcrm",), ("reload", g[1] + 1), ("reload", g[0]),
+          ("reload", g[2]), ("srcrm",), ("reload", g[0] + 1)]
+    if lits:
+        for v in r.sample(lits, min(3, len(lits))):
+            w2.append(("reload", v))
+    walks = [w1, w2]
+    if tier != "quick":
+        pool = sorted(set(lits + [x + d for x in g for d in (-1, 0, 1)] + [small]))
+        for _ in range(14):
+            w = []
+            for _ in range(r.randrange(8, 20)):
+                w.append(("srcrm",) if r.random() < 0.15 else ("reload", r.choice(pool if r.random() < 0.8 else pool[:12])))
+            walks.append(w)
+    return walks, {"TOMMY_HASHLIN_BIT": bit, "grow_boundaries": g, "literal_sizes": lits[:40]}
+
+
+def gen_size_script(r, name, walk, readers=4):
+    """reloads of source 0 whose router-key sets have the prescribed sizes (live table total = 3 keys of source 1 + set);
+    a core of keys is in every set (common keys: their look-up has the same answer under old and new set), the rest
+    is partly kept, partly fresh.  After every reload the writing thread enumerates the table (`kcheck`)."""
+    s = Script(name)
+    s.header = ["readers %d" % readers, "minreads 300", "maxrec 120000", "history 1"]
+
+    def key(asn, j, src):
+        return (asn, 1 + (asn * 31 + j * 7) % 255, 1 + (asn * 17 + j) % 255, src)
+
+    others = [key(64700 + i, 0, 1) for i in range(3)]
+    ncore = 10
+    core = [key(64512 + i, 0, 0) for i in range(ncore - 1)] + [key(64512, 1, 0)]     # two core keys share an AS number
+    fresh = [200000]
+
+    def new_keys(n):
+        out = []
+        while len(out) < n:
+            fresh[0] += r.choice([1, 1, 1, 2, 64, 4096])
+            out.append(key(fresh[0], 0, 0))
+            if r.random() < 0.12 and len(out) < n:
+                out.append(key(fresh[0], 1, 0))       # same AS number, other SKI: same hash bucket
+        return out
+
+    pfx_fixed = [(4, 0x0a000000, 8, 16, 65001, 0), (6, V6A, 32, 48, 65001, 0)]
+    pfx_var = [(4, 0x0a010000, 16, 24, 65002, 0), (4, 0xc0a80000, 16, 16, 65001, 0), (4, 0x0a000000, 8, 8, 65002, 0)]
+    s.probes.append(("v", (4, 0x0a010100, 24, 65001)))
+    s.probes.append(("v", (4, 0x0a010100, 24, 65002)))
+    s.probes.append(("v", (6, V6A, 48, 65001)))
+    s.probes.append(("e4",))
+    for k in core + others:
+        s.probes.append(("k", k[0], k[1]))
+    for k in core[:4] + others[:1]:
+        s.probes.append(("s", k[1]))
+
+    for k in others:
+        s.add_op(("kadd", k))
+    s.add_op(("add", (4, 0x0a800000, 8, 24, 65003, 1)))
+    varying = []
+    sampled = []
+    for step in walk:
+        if step[0] == "srcrm":
+            # this cache's keys are withdrawn one by one (spki_table_src_remove): the live table shrinks by removals
+            s.add_op(("ksrcrm", 0))
+            s.add_op(("kcheck",))
+            varying = []
+            continue
+        n_a = max(ncore + 1, step[1] - len(others))
+        keep_frac = r.choice([0.0, 0.3, 0.7, 1.0])
+        kept = r.sample(varying, min(len(varying), int(len(varying) * keep_frac), n_a - ncore))
+        varying = kept + new_keys(n_a - ncore - len(kept))
+        varying = varying[:n_a - ncore]
+        r.shuffle(varying)
+        if len(sampled) < 14 and varying:
+            k = r.choice(varying)
+            if k not in sampled:
+                sampled.append(k)
+        krecs = list(core) + list(varying)
+        r.shuffle(krecs)
+        precs = pfx_fixed + [x for x in pfx_var if r.random() < 0.5]
+        s.add_op(("reload", 0, precs, krecs))
+        s.add_op(("kcheck",))
+        s.add_pause(150)
+    for k in sampled:
+        s.probes.append(("k", k[0], k[1]))
+        if len(s.probes) % 3 == 0:
+            s.probes.append(("s", k[1]))
+    return s
+
+
 def parse_script(text, name):
     """corpus scripts: rebuild the parsed form from the text"""
     s = Script(name)
@@ -373,7 +510,7 @@ def parse_script(text, name):
         w = line.split()
         if not w or w[0].startswith("#"):
             continue
-        if w[0] in ("readers", "minreads", "maxrec"):
+        if w[0] in ("readers", "minreads", "maxrec", "history"):
             s.header.append(line)
         elif w[0] == "probe":
             if w[1] == "v":
@@ -392,6 +529,8 @@ def parse_script(text, name):
             s.add_op((w[0], (int(w[1]), int(w[2]), int(w[3]), int(w[4]))))
         elif w[0] == "pause":
             s.add_pause(int(w[1]))
+        elif w[0] == "kcheck":
+            s.add_op(("kcheck",))
         elif w[0] == "reload":
             cur = ["reload", int(w[1]), [], []]
         elif w[0] == "r" and cur:
@@ -421,6 +560,7 @@ def run_harness(exe, mode, script_text, tag, timeout=300):
             os.unlink(os.path.join(d, fn))
     env = dict(os.environ)
     env["TSAN_OPTIONS"] = "log_path=%s halt_on_error=0 report_signal_unsafe=0 exitcode=0 history_size=4" % logbase
+    env.update(vlib.SAN_ENV)       # the AddressSanitizer build of the same harness (C06 size classes)
     errp = sp + ".err"
     try:
         with open(errp, "w") as ef:
@@ -438,8 +578,10 @@ def run_harness(exe, mode, script_text, tag, timeout=300):
     try:
         with open(errp, errors="replace") as ef:
             data = ef.read()
-        keep = [l for l in data.splitlines() if re.search(r"Assertion|ThreadSanitizer|SEGV|DEADLYSIGNAL|runtime error|#\d+ ", l)]
-        err = "\n".join(keep[-60:])
+        keep = [l for l in data.splitlines() if re.search(r"Assertion|ThreadSanitizer|AddressSanitizer|SEGV|DEADLYSIGNAL|runtime error|#\d+ ", l)]
+        hist = [l for l in data.splitlines() if l.startswith("H ")]
+        # operation history of the writing thread (scripts with `history 1`): the last steps before the end / the crash
+        err = "\n".join(hist[-24:] + keep[:60])
         os.unlink(errp)
     except OSError:
         pass
@@ -474,6 +616,35 @@ def check_observations(script, out, stats, atomic_reload=False):
                 # the tables after a successful full reload are not "others + new set": the reload did not replace the cache's data
                 fails.append(("reload", "after a successful full reload, operation %d (%s) returned %d where the table that holds exactly the "
                               "new data set returns %d: the reload left old records behind or lost new ones" % (k, kind, rc, world.exp_rc[k])))
+    reload_ok = [False] * (nver + 1)     # operation k is a successful full reload
+    for l in wl:
+        _, k, rc = l.split()
+        if world.kinds[int(k)] == "reload" and int(rc) == 0:
+            reload_ok[int(k)] = True
+    # sequential variant: after a reload the writing thread finds exactly the new data set (list side and hash side)
+    for l in out:
+        if not l.startswith("K "):
+            continue
+        k, nlist, hlist, nfound, hfound, hcount, buckets = [int(x) for x in l.split()[1:]]
+        keys = world.keys[world.vend[k]]
+        want = (len(keys), sum(hash_key(x) for x in keys) & M64)
+        if count:
+            stats["kchecks"] = stats.get("kchecks", 0) + 1
+            stats["kcheck_keys"] = stats.get("kcheck_keys", 0) + len(keys)
+        if (nlist, hlist & M64) != want or (nfound, hfound & M64) != want or hcount != want[0]:
+            after_reload = any(reload_ok[:k + 1])
+            fails.append(("reload" if after_reload else "corr",
+                          "operation %d (kcheck, the writing thread alone): the router-key table must hold exactly the %d keys of "
+                          "the data set (hash %d); spki_table_search_by_ski enumerates %d keys (hash %d), spki_table_get_all finds "
+                          "%d of them again (hash %d), the hash table counts %d entries in %d buckets" % (
+                              k, want[0], want[1], nlist, hlist & M64, nfound, hfound & M64, hcount, buckets)))
+    # geometry of the live router-key hash table around every reload (measured by the harness)
+    geo = {}
+    for l in out:
+        if l.startswith("G "):
+            k, c0, b0, c1, b1 = [int(x) for x in l.split()[1:]]
+            geo[k] = (c0, b0, c1, b1)
+    during = {}
     for l in out:
         if not l.startswith("R "):
             continue
@@ -487,6 +658,11 @@ def check_observations(script, out, stats, atomic_reload=False):
             stats["width"][min(b - a, 5)] = stats["width"].get(min(b - a, 5), 0) + 1
             stats["probe_kind"][probe[0]] = stats["probe_kind"].get(probe[0], 0) + 1
             cands = {expected(world, cache, j, pi, probe) for j in range(va, vb + 1)}
+            if probe[0] in ("k", "s") and b > a and len(cands) == 1 and res[1] > 0:
+                # a look-up of a common key (same non-empty answer under old and new set) that overlapped a reload
+                for j in range(a + 1, b + 1):
+                    if reload_ok[j]:
+                        during[j] = during.get(j, 0) + 1
             if len(cands) > 1:
                 stats["contended"].add((script.name, pi, a, b))
                 if any(world.step_kind[j].startswith("reload") and
@@ -513,6 +689,30 @@ def check_observations(script, out, stats, atomic_reload=False):
                 break
         else:
             lo[tid] = found
+    if count:
+        # size classes exercised: a successful reload, with readers on common keys during it, with the sequential
+        # enumeration right after it
+        kchecked = {int(l.split()[1]) for l in out if l.startswith("K ")}
+        prev_after = None
+        for k in sorted(geo):
+            c0, b0, c1, b1 = geo[k]
+            removal_shrunk = prev_after is not None and b0 < prev_after
+            prev_after = b1
+            if not reload_ok[k] or b0 <= 0 or b1 <= 0:
+                continue
+            d = b1.bit_length() - b0.bit_length()
+            cls = ("same" if d == 0 else "grow+1" if d == 1 else "grow+2.." if d > 1 else "shrink-1" if d == -1 else "shrink-2..")
+            full = during.get(k, 0) > 0 and (k + 1) in kchecked
+            for c in [cls] + (["grow-after-removal-shrink"] if d > 0 and removal_shrunk else []):
+                # the coverage gate counts the generated size-class scripts only (not the corpus, not the random scripts)
+                bucket = "size_classes" if script.name.startswith("size") else "size_classes_elsewhere"
+                e = stats.setdefault(bucket, {}).setdefault(c, {"reloads": 0, "with_readers_and_kcheck": 0, "examples": []})
+                e["reloads"] += 1
+                if full:
+                    e["with_readers_and_kcheck"] += 1
+                    if len(e["examples"]) < 3:
+                        e["examples"].append("%d keys/%d buckets -> %d keys/%d buckets" % (c0, b0, c1, b1))
+            stats["reload_during_obs"] = stats.get("reload_during_obs", 0) + during.get(k, 0)
     return fails
 
 
@@ -557,6 +757,13 @@ def build_tsan_harness():
                               cc="clang-14", variant="tsan")
 
 
+def build_asan_harness():
+    """the same harness under AddressSanitizer + UBSan (gcc): a stale or missing segment of the hash directory is a
+    use-after-free / wild read there, where ThreadSanitizer may let it pass"""
+    return vlib.build_harness("asanlocks", ["locks_harness.c"], exclude=["rtrlib/rtr/packets.c"], flags=vlib.SAN_FLAGS_NOALIGN,
+                              variant="asan")
+
+
 def corpus_files(ext):
     cdir = os.path.join(vlib.VERIF, "corpus", "locks")
     if not os.path.isdir(cdir):
@@ -564,14 +771,15 @@ def corpus_files(ext):
     return [os.path.join(cdir, f) for f in sorted(os.listdir(cdir)) if f.endswith(ext)]
 
 
-def minimise(exe, script, pred, max_tests=24):
-    """ddmin over the op groups; pred(out, rc, tsan, err) says whether the failure is still there (tried twice)"""
+def minimise(exe, script, pred, max_tests=24, with_script=False):
+    """ddmin over the op groups; pred(out, rc, tsan, err[, parsed script]) says whether the failure is still there (tried twice)"""
     def fails(groups):
         s2 = Script(script.name)
         s2.header, s2.probes, s2.lines = script.header, script.probes, groups
+        extra = (parse_script(s2.text(), script.name),) if with_script else ()
         for _ in range(2):
             out, rc, tsan, err = run_harness(exe, "stress", s2.text(), "min", timeout=60)
-            if pred(out, rc, tsan, err):
+            if pred(out, rc, tsan, err, *extra):
                 return True
         return False
     groups = vlib.ddmin(list(script.lines), fails, max_tests=max_tests)
@@ -735,24 +943,26 @@ def run(pid, tier):
         return rep.finish()
 
     stats = {"scripts": 0, "ops": {}, "rc": {}, "obs": 0, "width": {}, "probe_kind": {}, "contended": set(),
-             "reload_contended": set(), "tsan_reports": 0, "crashes": 0, "corpus": 0, "xtable_runs": 0, "xtable_live": 0}
-    failures = []   # (kind, script, detail, tsan, err)
+             "reload_contended": set(), "tsan_reports": 0, "crashes": 0, "corpus": 0, "xtable_runs": 0, "xtable_live": 0,
+             "size_classes": {}, "size_scripts": 0, "asan_runs": 0}
+    failures = []   # (kind, script, detail, tsan, err, exe)
     xlive = []      # stress runs in which a reader saw new prefixes with old router keys
 
-    def run_script(script, tag):
-        out, rc, tsan, err = run_harness(exe, "stress", script.text(), tag)
+    def run_script(script, tag, xe=None, san="ThreadSanitizer"):
+        xe = xe or exe
+        out, rc, tsan, err = run_harness(xe, "stress", script.text(), tag)
         stats["scripts"] += 1
         nrace = tsan.count("WARNING: ThreadSanitizer")
         stats["tsan_reports"] += nrace
         if rc != 0 or not out or out[-1] != "done":
             stats["crashes"] += 1
-            failures.append(("crash", script, "harness ended with rc=%s after %d lines" % (rc, len(out)), tsan, err))
+            failures.append(("crash", script, "harness (%s build) ended with rc=%s after %d lines" % (san, rc, len(out)), tsan, err, xe))
             return
         if nrace:
-            failures.append(("race", script, "; ".join(tsan_summary(tsan)), tsan, err))
-        fl = check_observations(script, out, stats)
+            failures.append(("race", script, "; ".join(tsan_summary(tsan)), tsan, err, xe))
+        fl = check_observations(script, out, stats if xe is exe else None)
         for kind, msg in fl[:3]:
-            failures.append((kind, script, msg, tsan, err))
+            failures.append((kind, script, msg, tsan, err, xe))
         if not fl:
             # the same observations judged against a reload that replaces BOTH tables in one step
             fx = [f for f in check_observations(script, out, None, atomic_reload=True) if f[0] in ("mono", "lin")]
@@ -774,6 +984,31 @@ def run(pid, tier):
         sc = gen_script(r, "gen%d" % i, nops, readers=r.choice([2, 4, 6]), reload_heavy=(pid == "C06" or i % 3 == 2))
         run_script(sc, "gen")
 
+    # C06: reloads whose old and new router-key tables are in different size classes of the hash table
+    gate_missing = []
+    size_info = {}
+    if pid == "C06" and not (failures and tier == "quick"):
+        axe, alog = build_asan_harness()
+        if axe is None:
+            rep.build_log = alog
+            vlib.proof_failure(rep, "AddressSanitizer harness build against the current tree failed (locks_harness.c)")
+            return rep.finish()
+        rs = vlib.rng(pid + "/sizes")
+        walks, size_info = size_plan(rs, tier)
+        for attempt in range(3):
+            for i, walk in enumerate(walks):
+                if failures and tier == "quick":
+                    break
+                sc = gen_size_script(rs, "size%d.%d" % (attempt, i), walk, readers=rs.choice([3, 4, 6]))
+                stats["size_scripts"] += 1
+                run_script(sc, "size")
+                if not (failures and tier == "quick"):
+                    stats["asan_runs"] += 1
+                    run_script(sc, "asize", xe=axe, san="AddressSanitizer")
+            gate_missing = [c for c in SIZE_CLASSES if stats["size_classes"].get(c, {}).get("with_readers_and_kcheck", 0) == 0]
+            if failures or not gate_missing:
+                break       # otherwise: a class was reached without an overlapping reader (scheduling); once more
+
     # C06: the cross-table schedule on the real reload path
     xt_lines = []
     if pid == "C06":
@@ -790,7 +1025,12 @@ def run(pid, tier):
                 "rtr_sync_receive_and_store_pdus) against 2-6 reader threads running validate_r / for_each / get_all / "
                 "search_by_ski probes under ThreadSanitizer; every observation is checked against the set semantics of all "
                 "table versions inside its window, monotone per reader; distinct_nontrivial = distinct observations whose "
-                "window contains versions with different answers (the read really raced with a relevant update)",
+                "window contains versions with different answers (the read really raced with a relevant update)" + (
+                    "; C06 additionally: full reloads whose old and new router-key tables lie in different size classes of the hash "
+                    "table (sizes 2^k-1, 2^k, 2^k+1 around the growth boundaries derived from TOMMY_HASHLIN_BIT, and source "
+                    "literals +-1), one and several classes apart, growing and shrinking, also after a shrink by removals, with "
+                    "readers on the common keys and a sequential enumeration + look-up of every key after each reload, under "
+                    "ThreadSanitizer and AddressSanitizer; coverage gate on the measured bucket counts" if pid == "C06" else ""),
         "traces_validated_against_impl": stats["scripts"] - len({id(f[1]) for f in failures}),
         "distribution": {
             "scripts": stats["scripts"], "corpus": stats["corpus"], "writer_ops": stats["ops"], "return_codes": stats["rc"],
@@ -799,13 +1039,19 @@ def run(pid, tier):
             "reload_contended_observations": len(stats["reload_contended"]), "tsan_reports": stats["tsan_reports"],
             "crashes": stats["crashes"], "xtable_runs": stats["xtable_runs"],
             "stress_runs_with_cross_table_observation": stats["xtable_live"],
+            "size_class_scripts": stats["size_scripts"], "size_class_asan_runs": stats["asan_runs"],
+            "size_class_plan": size_info, "size_classes": stats["size_classes"],
+            "size_classes_in_corpus_and_random_scripts": {c: v["reloads"] for c, v in stats.get("size_classes_elsewhere", {}).items()},
+            "kchecks": stats.get("kchecks", 0), "kcheck_keys": stats.get("kcheck_keys", 0),
+            "common_key_lookups_overlapping_a_reload": stats.get("reload_during_obs", 0),
             "ir_functions": len(gen_locks_info().get("fns", [])), "ir_rewritten": gen_locks_info().get("changed"),
             "ir_violations": [list(b) for b in ir_bad],
         },
     })
     rep.cov["trusted_base"] = rep.cov.get("trusted_base", []) + [
         "tools/gen_locks.py (clang-14 JSON AST -> lock IR) incl. its extern effect table",
-        "ThreadSanitizer (clang-14) as race detector of the implementation side"]
+        "ThreadSanitizer (clang-14) as race detector of the implementation side"] + (
+            ["AddressSanitizer (gcc) as memory-error detector of the size-class reloads"] if pid == "C06" else [])
     if ir_table:
         rep.sample({"ir_per_function": {k: v[1] if v[1] != "ok" else "ok" for k, v in list(ir_table.items())[:40]}})
 
@@ -816,7 +1062,7 @@ def run(pid, tier):
 
     # 4. verdicts
     seen_kinds = set()
-    for kind, script, detail, tsan, err in failures:
+    for kind, script, detail, tsan, err, fexe in failures:
         if kind in seen_kinds:
             continue
         seen_kinds.add(kind)
@@ -825,9 +1071,22 @@ def run(pid, tier):
         text = script.text()
         if kind == "race" and tier == "quick":
             want = set(tsan_summary(tsan))
-            text = minimise(exe, script, lambda o, rc, t, e: bool(want & set(tsan_summary(t))))
+            text = minimise(fexe, script, lambda o, rc, t, e: bool(want & set(tsan_summary(t))))
         elif kind == "crash":
-            text = minimise(exe, script, lambda o, rc, t, e: rc != 0 or not o or o[-1] != "done")
+            text = minimise(fexe, script, lambda o, rc, t, e: rc != 0 or not o or o[-1] != "done",
+                            max_tests=60 if script.name.startswith("size") else 24)
+        elif kind in ("lin", "reload") and script.name.startswith("size"):
+            def same_failure(o, rc, t, e, sm, kind=kind):
+                if rc != 0 or not o or o[-1] != "done":
+                    return False
+                return any(f[0] == kind for f in check_observations(sm, o, None))
+            text = minimise(fexe, script, same_failure, max_tests=40, with_script=True)
+        if text != script.text():
+            # operation history of the minimised script (what the writing thread did up to the failure)
+            o2, rc2, t2, e2 = run_harness(fexe, "stress", text, "minhist", timeout=60)
+            h2 = [l for l in e2.splitlines() if l.startswith("H ")]
+            if h2:
+                err = "\n".join(["(history of the minimised script)"] + h2 + [l for l in err.splitlines() if not l.startswith("H ")])
         clause = {"race": "no execution contains a data race on table state",
                   "crash": "the implementation aborted under concurrent use (assertion / signal)",
                   "lin": "every read returns the answer for the table contents at some instant between call and return",
@@ -837,9 +1096,10 @@ def run(pid, tier):
         with open(full, "w") as f:
             f.write(script.text())
         rep.violation(kind, "# property %s, clause: %s\n# %s\n%s# replay (schedule dependent, repeat if needed): TSAN_OPTIONS=log_path=/tmp/tsan "
-                      "build/h_locks_*/locks stress <this file>\n# unminimised script: %s\n# --- stderr of the implementation ---\n%s\n"
+                      "%s stress <this file>\n# unminimised script: %s\n# --- stderr of the implementation ---\n%s\n"
                       "%s\n# --- ThreadSanitizer excerpt ---\n%s\n" % (
-                          pid, clause, detail, ir_text, full, "\n".join("# " + l for l in err.splitlines()[:12]), text,
+                          pid, clause, detail, ir_text, os.path.relpath(fexe, vlib.VERIF), full, "\n".join("# " + l for l in ([l for l in err.splitlines() if l.startswith(("H ", "(history"))][-17:] +
+                                                                [l for l in err.splitlines() if not l.startswith(("H ", "(history"))][:14])), text,
                           "\n".join("# " + l for l in tsan.splitlines()[:70])))
     corr = [f for f in failures if f[0] == "corr"]
     real = [f for f in failures if f[0] != "corr" and not (f[0] == "reload" and pid != "C06")]
@@ -858,6 +1118,11 @@ def run(pid, tier):
                                   "".join("# also seen without any parked reader, in stress script %s: %s\n" % (sc.name, m)
                                           for sc, m in xlive[:3])),
                               signature="C06/cross-table")
+    if pid == "C06" and gate_missing and not real and not corr:
+        rep.build_log = "size classes exercised: %r\nplan: %r" % (stats["size_classes"], size_info)
+        vlib.proof_failure(rep, "C06 coverage gate: no full reload with old and new router-key table in size class relation %s was "
+                           "exercised with readers on common keys during the swap and the sequential enumeration after it "
+                           "(sizes derived from TOMMY_HASHLIN_BIT / source literals of the tree under test)" % gate_missing)
     if corr and not real:
         rep.build_log = "\n".join(f[2] for f in corr[:5]) + "\n" + corr[0][1].text()[:3000]
         vlib.proof_failure(rep, "correspondence locks (set semantics of the writer operations vs trie-pfx.c / ht-spkitable.c)")
